@@ -43,8 +43,15 @@ def main(argv):
     try:
         mod.run(ctx, dn)
     except Exception as ex:
-        # a crash of the harness itself is not a verdict on the library
-        ctx.notes["harness_crash"] = traceback.format_exc()
+        from .guard import raised_in_library
+        if raised_in_library(ex):
+            # the library raised inside a call the workload makes unconditionally (a call that returns on the
+            # unchanged tree, or this shard would be inconclusive there): a violation, not a harness problem
+            ctx.violation("raised:unguarded-call", dict(exception=type(ex).__name__, message=str(ex)[:300],
+                                                        trace=traceback.format_exc()[-1500:]))
+        else:
+            # a crash of the harness itself is not a verdict on the library
+            ctx.notes["harness_crash"] = traceback.format_exc()
     rc.stop()
     dump_result(ctx, out, reach=rc.result() if rc.lines else None)
     return 0
